@@ -103,6 +103,11 @@ pub fn exec(slots: &mut Slots, sim: &mut Option<crate::simx::SimCtx>, t: &[&str]
                 ["revline", a] => { let Ok(a) = u16::from_str_radix(a, 16) else { return "bad-op".into() }; st.rev_lookup_line(a).map(|l| l.to_string()).unwrap_or("none".into()) }
                 ["lines"] => format!("[{}]", st.line_iter().map(|(l, a)| format!("{}:{:04x}", l, a)).collect::<Vec<_>>().join(",")),
                 ["readline", n] => { let Ok(n) = n.parse::<usize>() else { return "bad-op".into() }; match st.source_info().and_then(|s| s.read_line(n)) { Some(l) => format!("ok {}", hexs(l.as_bytes())), None => "none".into() } }
+                // the SourceInfo queries of C25 on the symbol table's (possibly linked) source
+                ["srclines"] => match st.source_info() { Some(si) => format!("lines={}", si.count_lines()), None => "none".into() },
+                ["srcline", n] => { let Ok(n) = n.parse::<usize>() else { return "bad-op".into() }; match st.source_info() { None => "nosrc".into(), Some(si) => match (si.line_span(n), si.read_line(n)) {
+                    (Some(sp), Some(txt)) => format!("span={}..{} text={}", sp.start, sp.end, hexs(txt.as_bytes())), (None, None) => "none".into(), _ => "inconsistent".into() } } }
+                ["srcpos", n] => { let Ok(n) = n.parse::<usize>() else { return "bad-op".into() }; match st.source_info() { None => "nosrc".into(), Some(si) => { let (l, c) = si.get_pos_pair(n); format!("{l} {c}") } } }
                 _ => "bad-op".into(),
             });
             r.unwrap_or_else(|m| format!("panic {}", m.replace(' ', "_")))
